@@ -73,6 +73,7 @@ def h_types_stream(ctx, L):
     ncmd = 0
     accepted = []          # types the transcript has delivered so far (after a MASK start)
     phase = "first"
+    unspec = False
     must_raise_at = None   # step at which a conforming reading must already have failed
     expect = None          # ('return', list) once the transcript is complete
     try:
@@ -106,8 +107,13 @@ def h_types_stream(ctx, L):
                 else:
                     if byte == 254:
                         expect = ("return", list(accepted))
-                    elif byte == 255:
-                        phase = "unspecified"
+                    elif byte == 255 and not unspec:
+                        # 255 as a 'next device type': whether it is recorded or rejected is not
+                        # specified, but it is the largest possible answer, so whatever follows
+                        # (other than the 254 terminator) is a repeat / out of order and must stop
+                        # the sequence: the command count stays bounded
+                        unspec = True
+                        accepted.append(255)
                     elif accepted and bool(E.le(byte, accepted[-1])):
                         must_raise_at = ncmd
                     else:
@@ -116,7 +122,7 @@ def h_types_stream(ctx, L):
             resp = cmd.response(raw)
     except StopIteration as e:
         r = e.value
-        if phase == "unspecified":
+        if unspec and must_raise_at is None:
             return "unspecified"
         if must_raise_at is not None:
             ctx.fail("returned %r although answer %d was missing, garbled, repeated or out of order"
@@ -133,7 +139,7 @@ def h_types_stream(ctx, L):
         ctx.prove(ok, "returned %r, transcript denotes %r" % (r, want), key="stream/wrong-list")
         return "return%d" % len(want)
     except DALISequenceError:
-        if phase == "unspecified":
+        if unspec and must_raise_at is None:
             return "unspecified"
         if must_raise_at is None and expect is not None and not (phase == "next" and len(expect[1]) < 2):
             ctx.fail("DALISequenceError on a conforming transcript denoting %r" % (expect[1],),
@@ -144,8 +150,6 @@ def h_types_stream(ctx, L):
                       % (ncmd - must_raise_at - 1), key="stream/late-raise")
         return "raise"
     except Exception as e:  # noqa
-        if phase == "unspecified":
-            return "unspecified"
         ctx.fail("unrelated exception %r" % (e,), key="stream/other-exception:" + type(e).__name__)
         return "other-exc"
 
